@@ -285,3 +285,76 @@ Proof.
   specialize (IH (t, dr') Hi Hr).
   destruct (run_trace true (t, dr') r) as [[now' dr''] lg]. cbn [fst snd] in *. exact IH.
 Qed.
+
+(* ---- what a snapshot of the driver between two events looks like ---- *)
+(* (this is what the correspondence check evaluates on the real driver through the
+   verification hook Driver::verif_snapshot): slots sorted by distinct deadlines, none in the
+   past, the front slot holds a timer, and next_wakeup itself is the wake-up that covers
+   every live slot *)
+Record Snap (now : N) (dr : driver) : Prop := mkSnap {
+  sn_sorted : sorted (pending dr);
+  sn_future : forall d es, In (d, es) (pending dr) -> now < d;
+  sn_front : match pending dr with (_, []) :: _ => False | _ => True end;
+  sn_cover : forall d es, In (d, es) (pending dr) -> es <> [] ->
+             exists w, next_wakeup dr = Some w /\ In w (scheduled dr) /\ now < w /\ w <= d }.
+
+Lemma deactivate_snap t dr : Mid t dr -> Snap t (fst (deactivate true dr)).
+Proof.
+  intros Hm. pose proof Hm as [Hs Hl Hnw Hsc].
+  pose proof (prune_sorted _ Hs) as Hps.
+  assert (Hfut : forall d es, In (d, es) (prune (pending dr)) -> t < d).
+  { intros d es Hin. destruct (prune (pending dr)) as [|[d0 es0] r] eqn:Ep; [contradiction|].
+    pose proof (prune_head_live _ _ _ _ Ep) as Hne0.
+    assert (Hd0 : t < d0) by (apply (Hl d0 es0); [apply prune_in; rewrite Ep; left; reflexivity|exact Hne0]).
+    destruct Hin as [Heq|Hin]; [injection Heq as <- _; exact Hd0|].
+    pose proof (sorted_head_lt _ _ _ Hps Hin) as Hlt. cbn [fst] in Hlt. lia. }
+  assert (Hfront : match prune (pending dr) with (_, []) :: _ => False | _ => True end).
+  { destruct (prune (pending dr)) as [|[d0 es0] r] eqn:Ep; [exact I|].
+    pose proof (prune_head_live _ _ _ _ Ep) as Hne0. destruct es0; [contradiction Hne0; reflexivity|exact I]. }
+  unfold deactivate, q_next.
+  destruct (prune (pending dr)) as [|[d0 es0] r] eqn:Ep; cbn [front_time fst].
+  - constructor; cbn [pending next_wakeup scheduled]; [constructor|intros d es []|exact I|intros d es []].
+  - pose proof (prune_head_live _ _ _ _ Ep) as Hne0.
+    assert (Hd0 : t < d0) by (apply (Hfut d0 es0); left; reflexivity).
+    assert (Hmin : forall d es, In (d, es) ((d0, es0) :: r) -> d0 <= d).
+    { intros d es [Heq|Hin]; [injection Heq as <- _; lia|].
+      pose proof (sorted_head_lt _ _ _ Hps Hin) as Hlt. cbn [fst] in Hlt. lia. }
+    destruct (earlier d0 (next_wakeup dr)) eqn:Ee; cbn [fst].
+    + constructor; cbn [pending next_wakeup scheduled]; [exact Hps|exact Hfut|exact Hfront|].
+      intros d es Hin _. exists d0. split; [reflexivity|]. split; [apply in_or_app; right; left; reflexivity|].
+      split; [exact Hd0|exact (Hmin d es Hin)].
+    + unfold earlier in Ee. destruct (next_wakeup dr) as [w0|] eqn:En; [|discriminate].
+      destruct (Hnw w0 eq_refl) as [Hw0 Hin0].
+      constructor; cbn [pending next_wakeup scheduled]; [exact Hps|exact Hfut|exact Hfront|].
+      intros d es Hin _. exists w0. split; [reflexivity|]. split; [exact Hin0|]. split; [exact Hw0|].
+      pose proof (Hmin d es Hin). lia.
+Qed.
+
+Lemma step_event_snap st e : Inv (fst st) (snd st) -> ev_valid st e ->
+  Snap (fst (fst (step_event true st e))) (snd (fst (step_event true st e))).
+Proof.
+  destruct st as [now dr]. cbn [fst snd]. intros Hinv Hv.
+  destruct e as [t ops|ops]; cbn [ev_valid fst snd] in Hv; cbn [step_event].
+  - destruct Hv as (_ & Hsc & Hwf). unfold event_body.
+    pose proof (activate_mid t dr (inv_pre_other _ _ _ Hinv Hsc)) as Hm.
+    destruct (activate t dr) as [w d1]. cbn [fst snd] in *.
+    apply deactivate_snap. apply apply_ops_mid; assumption.
+  - destruct Hv as (w & Hm & Hwf). rewrite Hm. unfold wakeup_event, event_body.
+    pose proof (activate_mid w _ (inv_pre_wake _ _ _ Hinv Hm)) as Hmid.
+    destruct (activate w (sched_fire w dr)) as [wk d1]. cbn [fst snd] in *.
+    apply deactivate_snap. apply apply_ops_mid; assumption.
+Qed.
+
+Lemma trace_snap tr : forall st, Inv (fst st) (snd st) -> valid_trace st tr -> Snap (fst st) (snd st) ->
+  Snap (fst (fst (run_trace true st tr))) (snd (fst (run_trace true st tr))).
+Proof.
+  induction tr as [|e r IH]; intros st Hinv Hv Hsn; [exact Hsn|].
+  destruct Hv as [Hev Hr]. rewrite run_trace_cons.
+  pose proof (step_event_inv st e Hinv Hev) as Hi. pose proof (step_event_snap st e Hinv Hev) as Hs1.
+  destruct (step_event true st e) as [[t dr'] w]. cbn [fst snd] in *.
+  specialize (IH (t, dr') Hi Hr Hs1).
+  destruct (run_trace true (t, dr') r) as [[now' dr''] lg]. cbn [fst snd] in *. exact IH.
+Qed.
+
+Lemma snap_init : Snap 0 new_driver.
+Proof. constructor; cbn [new_driver pending]; [constructor|intros d es []|exact I|intros d es []]. Qed.
